@@ -18,6 +18,18 @@ type fenceArea struct {
 	circle                         bool
 	lat, lon, meters               float64 // circle
 	minLat, minLon, maxLat, maxLon float64 // rectangle
+	// syntax: how the area is written in the command. "" = POINT (NEARBY) or CIRCLE (WITHIN /
+	// INTERSECTS) for circles, BOUNDS for rectangles; rectangles may also be written as "object"
+	// (a GeoJSON polygon), "hash" (a geohash cell, in hash) or "get" (a reference to a stored
+	// BOUNDS object: GET areas <id>)
+	syntax string
+	hash   string
+}
+
+// areaRefID names the stored object a "get" area refers to; it carries the rectangle so that
+// the definition can be read back from the command alone.
+func (a *fenceArea) areaRefID() string {
+	return fmt.Sprintf("z_%s_%s_%s_%s", fnum(a.minLat), fnum(a.minLon), fnum(a.maxLat), fnum(a.maxLon))
 }
 
 type fenceDef struct {
@@ -62,10 +74,22 @@ func (f *fenceDef) args() []string {
 		sort.Strings(d)
 		a = append(a, "COMMANDS", strings.Join(d, ","))
 	}
-	if f.area.circle {
-		a = append(a, "POINT", fnum(f.area.lat), fnum(f.area.lon), fnum(f.area.meters))
-	} else {
-		a = append(a, "BOUNDS", fnum(f.area.minLat), fnum(f.area.minLon), fnum(f.area.maxLat), fnum(f.area.maxLon))
+	ar := &f.area
+	switch {
+	case ar.circle && f.cmd == "nearby":
+		a = append(a, "POINT", fnum(ar.lat), fnum(ar.lon), fnum(ar.meters))
+	case ar.circle:
+		a = append(a, "CIRCLE", fnum(ar.lat), fnum(ar.lon), fnum(ar.meters))
+	case ar.syntax == "object":
+		a = append(a, "OBJECT", fmt.Sprintf(`{"type":"Polygon","coordinates":[[[%s,%s],[%s,%s],[%s,%s],[%s,%s],[%s,%s]]]}`,
+			fnum(ar.minLon), fnum(ar.minLat), fnum(ar.maxLon), fnum(ar.minLat), fnum(ar.maxLon), fnum(ar.maxLat),
+			fnum(ar.minLon), fnum(ar.maxLat), fnum(ar.minLon), fnum(ar.minLat)))
+	case ar.syntax == "hash":
+		a = append(a, "HASH", ar.hash)
+	case ar.syntax == "get":
+		a = append(a, "GET", "areas", ar.areaRefID())
+	default:
+		a = append(a, "BOUNDS", fnum(ar.minLat), fnum(ar.minLon), fnum(ar.maxLat), fnum(ar.maxLon))
 	}
 	return a
 }
